@@ -16,7 +16,9 @@ ALL = [n for n, c in REG.contracts.items() if "C08" in c.props]
 # string-level contracts (paths, Base58Check text, blinding) cannot be executed symbolically by pyvc (no symbolic
 # strings): they are decided by the bounded jobs below only and are NOT part of the deductive obligation count
 STRING_LEVEL = list(CH.STRING_LEVEL)
-CONTRACTS = [n for n in ALL if n not in STRING_LEVEL]
+# arbitrary public-key bytes: bounded only (see the note of the contract)
+BOUNDED_ONLY = list(CH.BOUNDED_ONLY)
+CONTRACTS = [n for n in ALL if n not in STRING_LEVEL and n not in BOUNDED_ONLY]
 TABLES = []
 
 # ---------------------------------------------------------------------------- published vectors (BIP32 test vectors 1-5)
@@ -171,7 +173,7 @@ def _job(names, quick_s, thorough_s, n_quick, n_thorough, bound):
 
 H_ = "verif.harness.hd."
 DERIVE = [n for n in CONTRACTS if any(t in n for t in ("child", "consistency", "from_seed", "fingerprint"))]
-CODEC = [n for n in CONTRACTS if n not in DERIVE]
+CODEC = [n for n in CONTRACTS if n not in DERIVE] + BOUNDED_ONLY
 
 
 def path_algebra(seed, tier):
@@ -230,13 +232,13 @@ def path_algebra(seed, tier):
 
 BOUNDED = [
     ("rt-contracts", fuzz_job(CONTRACTS)),
-    ("rt-derivation", _job(DERIVE, 60, 600, 60, 1500, "boundary secrets/chain codes/depths x indices 0,1,2,2^31-2,2^31-1,2^31,2^31+1,2^32-2,2^32-1 then seeded random")),
-    ("rt-codec", _job(CODEC, 40, 400, 150, 3000, "all 20 SLIP-132 versions x depth 0/1/255 x boundary child numbers; BIP32 test-vector-5 style malformed payloads; seeded mutations")),
-    ("rt-text", _job([H_ + "xprv_roundtrip", H_ + "parse_text"], 60, 600, 120, 3000,
+    ("rt-derivation", _job(DERIVE, 35, 600, 60, 1500, "boundary secrets/chain codes/depths x indices 0,1,2,2^31-2,2^31-1,2^31,2^31+1,2^32-2,2^32-1 then seeded random")),
+    ("rt-codec", _job(CODEC, 30, 400, 150, 3000, "all 20 SLIP-132 versions x depth 0/1/255 x boundary child numbers; BIP32 test-vector-5 style malformed payloads; seeded mutations")),
+    ("rt-text", _job([H_ + "xprv_roundtrip", H_ + "parse_text"], 35, 600, 120, 3000,
                      "10 SLIP-132 letters (20 prefixes) x networks of the family x depth 0/1/255: xprv()/xpub() -> parse -> same node; test vector 5 and constructed malformed keys")),
-    ("rt-paths", _job([H_ + "traverse_priv", H_ + "traverse_pub", H_ + "traverse_split"], 100, 900, 400, 20000,
+    ("rt-paths", _job([H_ + "traverse_priv", H_ + "traverse_pub", H_ + "traverse_split"], 75, 900, 400, 20000,
                       "every path of depth <= 2 over {0,1,2^31-1,2^31,2^32-1} x {'',',h,H} x {m,M}; seeded valid paths of depth 3..8; malformed strings; traverse(a+b) == traverse(a).traverse(b) for depth(a),depth(b) <= 4")),
-    ("rt-blinding", _job([H_ + "blind", "buidl.blinding.combine_bip32_paths", "buidl.hd.ltrim_path", "buidl.hd.is_valid_bip32_path"], 100, 900, 400, 20000,
+    ("rt-blinding", _job([H_ + "blind", "buidl.blinding.combine_bip32_paths", "buidl.hd.ltrim_path", "buidl.hd.is_valid_bip32_path"], 40, 900, 400, 20000,
                          "starting paths x secret paths of depth <= 4 in all notations x 5 SLIP-132 versions; path predicates over enumerated and malformed strings")),
     ("path-algebra", path_algebra),
     ("bip32_vectors", bip32_vectors),
